@@ -11,7 +11,7 @@ import (
 )
 
 func init() {
-	props["C13"] = &propDef{run: runC13, explanation: "Partial ('only if' direction). Decided statically on the patch validators: (K1) the numeric limits and the id pattern — len(id) > 50 rejects, len(service type) > 30 rejects, purposes longer than the 5-entry purpose table reject, ids must match the regexp literal ^[A-Za-z0-9_-]+$ compiled once; (T1) the key-type × purpose matrix extracted from the four package-level literals equals the documented matrix and the purpose table holds the five document.KeyPurpose* constants; (T2) the member-name sets of a key (required, optional, one-of) and of a replace document; (U1) every for-all loop in the validator packages rejects only inside its body (an accepting return inside such a loop validates only a prefix); (G1) per action, success lies behind each documented check for every element (for-all form through helper boundaries): array presence, id rules, duplicate ids, member rule, purposes rule, type/purpose rule, JWK rule, service id/type/endpoint rules with URI validity for a string endpoint and for every string entry of a list endpoint, also-known-as URI parse and uniqueness, replace member set, original-document id/context refusal. Not decided: the 'if' direction; what net/url accepts; JWK well-formedness beyond the presence checks. (U2) every seen-set is searched with the key expression it is filled with. Presence of a key member is tested by comma-ok lookups only; in JWK.Validate each member is demanded only of the key type it belongs to."}
+	props["C13"] = &propDef{run: runC13, explanation: "Partial ('only if' direction). Decided statically on the patch validators: (K1) the numeric limits and the id pattern — len(id) > 50 rejects, len(service type) > 30 rejects, purposes longer than the 5-entry purpose table reject, ids must match the regexp literal ^[A-Za-z0-9_-]+$ compiled once; (T1) the key-type × purpose matrix extracted from the four package-level literals equals the documented matrix and the purpose table holds the five document.KeyPurpose* constants; (T2) the member-name sets of a key (required, optional, one-of) and of a replace document; (U1) every for-all loop in the validator packages rejects only inside its body (an accepting return inside such a loop validates only a prefix); (G1) per action, success lies behind each documented check for every element (for-all form through helper boundaries): array presence, id rules, duplicate ids, member rule, purposes rule, type/purpose rule, JWK rule, service id/type/endpoint rules with URI validity for a string endpoint and for every string entry of a list endpoint, also-known-as URI parse and uniqueness, replace member set, original-document id/context refusal. Not decided: the 'if' direction; what net/url accepts; JWK well-formedness beyond the presence checks. (U2) every seen-set is searched with the key expression it is filled with. Presence of a key member is tested by comma-ok lookups only; in JWK.Validate each member is demanded only of the key type it belongs to. ParsePublicKeys / ParseServices leave their entry loop only at its end."}
 }
 
 func constStringsOfAlloc(c *Ctx, a *ssa.Alloc) []string {
@@ -316,7 +316,25 @@ func runC13(c *Ctx) {
 	} else {
 		c.Unresolved("C13.G1", "(document.JWK).Validate")
 	}
-	c.Min("C13.G1", 60)
+	// the validators see the keys / services through ParsePublicKeys / ParseServices: the parser hands on every object
+	// of the list — leaving its loop early ("not an array of objects") hides the remaining, unvalidated entries while
+	// the presence test on the raw list has already passed
+	for _, pn := range []string{"ParsePublicKeys", "ParseServices"} {
+		if pf := c.Fn("document", pn); pf != nil {
+			c.Analysed(pf)
+			// (the loop may sit in an unexported helper — a generic one shared by the two parsers)
+			var bad []string
+			nLoops := 0
+			for _, h := range append([]*ssa.Function{pf}, c.helpersOf(pf, 2)...) {
+				bad = append(bad, c.earlyLoopExits(h)...)
+				nLoops += len(naturalLoops(h))
+			}
+			c.Check("C13.G1", pn+":every-entry-handed-on", len(bad) == 0 && nLoops > 0, pf.Pos(), pn+": the loop over the list's entries is left only at its end", bad...)
+		} else {
+			c.Unresolved("C13.G1", "document."+pn)
+		}
+	}
+	c.Min("C13.G1", 62)
 	c.Min("C13.K1", 1)
 	c.Assume("net/url.ParseRequestURI / url.Parse decide URI validity; the 'if' direction (every conforming patch is accepted) is not decided")
 }
@@ -599,7 +617,10 @@ func (c *Ctx) memberRuleFn(g *ssa.Function) (setsOK bool, shapeOK bool) {
 	}})
 	ok2, _, n2 := c.GuardLoop(g, nil, &GCheck{Name: "member name ∈ allowed", MatchCall: func(c *Ctx, call *ssa.Call, env Env) bool {
 		h := call.Call.StaticCallee()
-		if h == nil || !inModule(h) || !isBoolType(call.Type()) || len(call.Call.Args) != 2 || !strings.Contains(c.Path(call.Call.Args[1], env), "range($0)") {
+		if h == nil || !inModule(h) || !isBoolType(call.Type()) || len(call.Call.Args) != 2 {
+			return false
+		}
+		if _, mWanted := memberArgs(call); !strings.Contains(c.Path(mWanted, env), "range($0)") {
 			return false
 		}
 		ok, _ := c.isMembershipFn(h)
